@@ -43,3 +43,11 @@ pub mod v1 {
 pub mod e1 {
     include!("e1_overflow.rs");
 }
+#[cfg(feature = "collections")]
+pub mod s1 {
+    include!("s1_string.rs");
+}
+#[cfg(all(feature = "collections", feature = "boxed"))]
+pub mod dl {
+    include!("dl_drops.rs");
+}
